@@ -89,8 +89,8 @@ def sites(path):
                     out.append(dict(kind='arith', line=ln, c0=c0, c1=c1, new=tx.replace(old, '-' if old == '+' else '+'), fn=fn))
         if isinstance(node, ast.Call) and node.keywords:
             for kw in node.keywords:
-                if kw.arg is None or kw.lineno != kw.end_lineno:
-                    continue
+                if kw.arg is None or kw.lineno != kw.end_lineno or kw.arg in ('name', 'protocol', 'dtype', 'width', 'placeholder', 'file', 'end'):
+                    continue          # representation / message only
                 line = lines[kw.lineno - 1]
                 c1 = kw.end_col_offset
                 rest = line[c1:]
